@@ -113,6 +113,29 @@ Fixpoint restarts_ok_chrono (lastacc : nat) (l : list ev) : bool :=
   | EFactory _ r :: l' => Nat.eqb r lastacc && restarts_ok_chrono lastacc l'
   | _ :: l' => restarts_ok_chrono lastacc l'
   end.
+(* eternal (W1): "an eternal source RESTARTS its inner source".  restarts_ok_chrono only says from where a restart that
+   happens is made.  When the Shutdown comes at idle time (nothing moves any more), every inner source whose script makes it
+   terminate (a failure of its own, a handler error) has been replaced by then: the factory was called at least once more
+   than the number of leading terminating scripts (sources beyond the supply have the empty script: they stay idle).
+   Computed from the input scripts and the observed log alone, not from the model. *)
+Definition script_terminates (sc : list iev) : bool :=
+  existsb (fun e => match e with IFail => true | IBlock _ ok => negb ok end) sc.
+Fixpoint expected_starts (sup : list (list iev)) : nat :=
+  match sup with
+  | [] => 1
+  | sc :: r => if script_terminates sc then S (expected_starts r) else 1
+  end.
+Fixpoint count_factory (l : list ev) : nat :=
+  match l with
+  | [] => 0
+  | EFactory _ _ :: l' => S (count_factory l')
+  | _ :: l' => count_factory l'
+  end.
+Definition restarts_happen (sup : list (list iev)) (i : inj) (l : list ev) : bool :=
+  match i with
+  | InjIdle => Nat.leb (expected_starts sup) (count_factory l)
+  | _ => true
+  end.
 (* multiplexed: after a handler error every started inner source ends up shut down (o_allshut); in the
    log, the source whose handler call failed is shut down *)
 Fixpoint fail_then_down (all l : list ev) : bool :=
@@ -127,7 +150,8 @@ Definition common_ok (o : obs) : bool :=
 
 Definition prop_ok (k : c12_case) : bool :=
   match k with
-  | KEternal _ _ o => common_ok o && no_begin_after_ret false (o_log o) && restarts_ok_chrono 0 (o_log o)
+  | KEternal sup i o => common_ok o && no_begin_after_ret false (o_log o) && restarts_ok_chrono 0 (o_log o) &&
+                        restarts_happen sup i (o_log o)
   | KJoining _ _ _ _ _ o => common_ok o && no_begin_after_ret false (o_log o)
   | KSub _ _ o => common_ok o && no_begin_after_ret false (o_log o)
   | KFile _ _ _ o => common_ok o && no_begin_after_ret false (o_log o)
